@@ -568,6 +568,17 @@ func rulesC09(p *Prog, r *Report) {
 		r.Unknown("K3", "comparisons", "-", "kind=undecided: no string comparison found in the matcher files")
 	}
 	ruleAfterRecognition(p, r, "K5", false)
+	// K6: before recognition, too, the caller's spelling is judged only by tests that ignore letter case or
+	// concern a fixed, case-sensitive-by-design suffix: the normalisation must resolve into a decision list
+	// whose guards are the folding lookups, constant-suffix tests and '+' probes (the same extraction C08
+	// evaluates). A guard of another kind — a case-sensitive table search on the raw id, say — makes the
+	// answer depend on the letter case the id was written in.
+	r.Rule("K6", "necessary", 1, "the id normalisation decides on the raw id only through the folding lookups, constant-suffix tests and '+' probes (its decision list resolves)")
+	if plan, err := extractPlan(p); err != nil {
+		r.Bad("K6", "normalizeLicense|guards", "-", "the normalisation takes a decision on the raw id that is not a folding lookup, a constant-suffix test or a '+' probe: "+err.Error())
+	} else {
+		r.OK("K6", "normalizeLicense|guards", p.pos(plan.Fn.Pos()), "decision list resolved", fmt.Sprintf("%d attempts", len(plan.Attempts)), true)
+	}
 }
 
 var successLitRe = regexp.MustCompile(`^\((?:nil == (.*\(.*\))|(.*\(.*\)) == nil)\)$`)
